@@ -38,7 +38,7 @@ CHECKS["C15"] = dict(
                 "gossip, cesium engines; fresh per case). After every request the cluster metadata is compared with a table model and with "
                 "every node's time-series engine, keys are checked for novelty and leaseholder, names for validity/uniqueness, and deleted "
                 "channels for being unreachable at both layers. Sampled, not exhaustive; no absence claim."),
-    level_note=("Trusted: the table model and the request/result pairing in the harness, channel retrieval (full scan) as the view of a node's "
+    level_note=("Added later: `burst` (3-12 goroutines create one leased virtual channel each through one node at the same moment), renames with allowInternal=true, engines restarted on their storage at the end. Trusted: the table model and the request/result pairing in the harness, channel retrieval (full scan) as the view of a node's "
                 "metadata, cesium RetrieveChannel as the view of an engine, the mock transports, rapid, the Go toolchain. Node restarts, "
                 "concurrent requests and the ontology/search side effects of channel operations are outside the check; cases whose gossip "
                 "does not converge within the bound are discarded, not judged."),
